@@ -17,9 +17,11 @@ The five generators follow the existing models: `C08.Iter`/`C08.View.addr`/`C08.
 addresses, `fixPos` neighbour positions, `C01.support`, `C06.support`, `C03.find/join/scanPixel`,
 `C04.modelVisit/extractMin/nbCheck`, `C08.readIter` labels.  erode / convolve / labeled fold are
 REAL step programs (`op` computes the kernel's value from the values read; tied to
-`C01.erodeModel`, `C06.convAcc`, `C08.labeledFoldView` in `Proofs/C12Kernels.lean`); label and
-cwatershed are *trace replays* of the model runs (each write step stores the value the model stores;
-the read/write SETS are those of the run, the values are not recomputed from memory).
+`C01.erodeModel`, `C06.convAcc`, `C08.labeledFoldView` in `Proofs/C12Kernels.lean`), and so is label
+(addresses generated along the union-find run, values computed from the values read; tied to
+`C03.labelModel` in `Proofs/C12Label.lean`) and cwatershed (addresses generated along the run of
+`C04.modelRun`; the values stored into `res` are copies of values read, those stored into `status` /
+`lines` are the constants the C++ stores; tied to `C04.cwatershedModel` in `Proofs/C12Cwatershed.lean`).
 
 Import-free (only `Mahotas.Model.*`).
 -/
@@ -232,26 +234,35 @@ def foldRaw (f : Val → Val → Val) (start : Val) (maxlabel : Nat) (vA vL : C0
 /-! ## label (`_labeled.cpp` `label`): union-find inside the call's own buffer
 
 roles: `inp 0` = Bc; `own 0` = `labeled` (the wrapper's fresh int32 buffer: input, union-find parents
-and result in one), `own 1` = `filter_data_`, `own 2` = a register, `own 3` = `std::map seen`.
-Trace replay of the run of `C03.parents` / `C03.renumber`. -/
+and result in one), `own 1` = `filter_data_`, `own 2` = registers (`[0]` = the value last loaded / the
+return value of `find`, `[1]` = `next`), `own 3` = `std::map seen` (cell `k` = `seen[k]`).
+A REAL step program: the ADDRESSES are generated along the run of `C03.parents` / `C03.renumGo` (they
+are data dependent: `find` follows the parent pointers), every VALUE stored is computed by the step from
+the values it reads (`find` returns through the register, `join` stores the register, the renumbering
+loop copies `next` / `seen[val]`). -/
 
 /-- load `own a [i]` into the register -/
 def rdS (reg a : Nat) (i : Int) : RStep := ⟨reg, 0, [⟨.own a, i⟩], fun vs => vs.headD 0⟩
-/-- store the (model's) value `v` into `own a [i]` -/
+/-- store the (model's) value `v` into `own a [i]` (used by the cwatershed trace replay) -/
 def wrS (a : Nat) (i : Int) (v : Val) (srcs : List RLoc) : RStep := ⟨a, i, srcs, fun _ => v⟩
+/-- store the register `own 2 [0]` into `own a [i]` -/
+def stS (a : Nat) (i : Int) : RStep := ⟨a, i, [⟨.own 2, 0⟩], fun vs => vs.headD 0⟩
 
-/-- accesses of `find(data, i)` on parent array `par`: read `data[i]`, recurse, write `data[i]` -/
+/-- accesses of `find(data, i)` on parent array `par`: load `data[i]`; at a root the loaded value is the
+return value; otherwise recurse on it and, on the way back, `data[i] = j` with `j` still in the register.
+(Exhausted fuel — `C03.find 0` returns `i` without reading; unreachable with the fuel `N + 1` used — is
+modelled as loading the constant.) -/
 def findLog : Nat → Array Int → Nat → List RStep
-  | 0, _, _ => []
+  | 0, _, i => [⟨2, 0, [], fun _ => (i : Int)⟩]
   | fuel + 1, par, i =>
     let p := par.getD i (-1)
     if p = (i : Int) then [rdS 2 0 i] else
-    rdS 2 0 i :: findLog fuel par p.toNat ++ [wrS 0 i ((C03.find fuel par p.toNat).2 : Int) [⟨.own 2, 0⟩]]
+    rdS 2 0 i :: findLog fuel par p.toNat ++ [stS 0 i]
 
+/-- `join`: `i = find(i); j = find(j); data[i] = j` (`j` is in the register after the second `find`) -/
 def joinLog (fuel : Nat) (par : Array Int) (i j : Nat) : List RStep :=
   let r1 := C03.find fuel par i
-  let r2 := C03.find fuel r1.1 j
-  findLog fuel par i ++ findLog fuel r1.1 j ++ [wrS 0 r1.2 (r2.2 : Int) [⟨.own 2, 0⟩]]
+  findLog fuel par i ++ findLog fuel r1.1 j ++ [stS 0 r1.2]
 
 /-- the state step of the neighbour loop of `C03.scanPixel` -/
 def scanNbStep (fuel : Nat) (i : Nat) (par : Array Int) (nb : Nat) : Array Int :=
@@ -267,6 +278,27 @@ def scanPixelLog (m : Mode) (shape : List Nat) (offs : List (List Int)) (fuel : 
         (let v := par.getD nb (-1); if v = -1 then [] else joinLog fuel par i v.toNat))
       par (C03.neighbours m shape offs (unravelI shape i)))
 
+/-- the compression loop: `if (data[i] != -1) compress(data, i)` -/
+def compressStep (fuel : Nat) (par : Array Int) (i : Nat) : Array Int :=
+  if par.getD i (-1) = -1 then par else C03.compress fuel par i
+
+def compressLog (fuel : Nat) (par : Array Int) (i : Nat) : List RStep :=
+  rdS 2 0 i :: (if par.getD i (-1) = -1 then [] else findLog fuel par i)
+
+/-- the renumbering loop along `C03.renumGo`: `val = data[i]`; known key: `data[i] = seen[val]`; new key:
+`data[i] = next; seen[val] = next; ++next` -/
+def renumLog (seen : List (Int × Int)) (next : Int) (i : Nat) : List Int → List RStep
+  | [] => []
+  | v :: vs =>
+    rdS 2 0 i ::
+    (match seen.lookup v with
+     | some _ => (⟨0, (i : Int), [⟨.own 3, v⟩], fun xs => xs.headD 0⟩ : RStep) :: renumLog seen next (i + 1) vs
+     | none =>
+       [ (⟨0, (i : Int), [⟨.own 2, 1⟩], fun xs => xs.headD 0⟩ : RStep),
+         ⟨3, v, [⟨.own 2, 1⟩], fun xs => xs.headD 0⟩,
+         ⟨2, 1, [⟨.own 2, 1⟩], fun xs => xs.headD 0 + 1⟩ ] ++
+       renumLog ((v, next) :: seen) (next + 1) (i + 1) vs)
+
 def labelRaw (m : Mode) (shape : List Nat) (data : List Int) (vBc : C08.View) (bc : Array Int) :
     List RStep :=
   let n := data.length
@@ -274,26 +306,23 @@ def labelRaw (m : Mode) (shape : List Nat) (data : List Int) (vBc : C08.View) (b
   let offs := C03.offsets vBc.shape bc
   let par0 := C03.initParents data
   let par1 := (List.range n).foldl (C03.scanPixel m shape offs fuel) par0
-  let cstep := fun (par : Array Int) (i : Nat) =>
-    if par.getD i (-1) = -1 then par else C03.compress fuel par i
-  let par2 := (List.range n).foldl cstep par1
-  let out := (C03.renumber (-1) par2.toList).1
-  -- `data[i] = (data[i] ? i : -1)` (a real step)
+  let par2 := (List.range n).foldl (compressStep fuel) par1
+  -- `data[i] = (data[i] ? i : -1)`
   (List.range n).map (fun (i : Nat) => (⟨0, (i : Int), [⟨.own 0, (i : Int)⟩],
       fun vs => if vs.headD 0 ≠ 0 then (i : Int) else -1⟩ : RStep)) ++
   filterCopyRaw 0 vBc ++
   logFold (C03.scanPixel m shape offs fuel) (scanPixelLog m shape offs fuel) par0 (List.range n) ++
-  logFold cstep (fun par i => rdS 2 0 i :: (if par.getD i (-1) = -1 then [] else findLog fuel par i))
-    par1 (List.range n) ++
-  (List.range n).flatMap fun i =>
-    [wrS 3 0 (out.getD i 0) [⟨.own 0, (i : Int)⟩, ⟨.own 3, 0⟩],
-     wrS 0 i (out.getD i 0) [⟨.own 0, (i : Int)⟩, ⟨.own 3, 0⟩]]
+  logFold (compressStep fuel) (compressLog fuel) par1 (List.range n) ++
+  -- `int next = 1; seen[-1] = 0;` then the loop
+  [ (⟨2, 1, [], fun _ => 1⟩ : RStep), ⟨3, -1, [], fun _ => 0⟩ ] ++
+  renumLog [(-1, 0)] 1 0 par2.toList
 
 /-! ## cwatershed (`_morph.cpp` `cwatershed<T>`)
 
 roles: `inp 0` = surface, `inp 1` = markers, `inp 2` = Bc; `own 0` = `res` (C array, flat), `own 1` =
 `status`, `own 2` = the priority queue (cell = insertion index), `own 3` = `lines`, `own 4` = the
-neighbour table, `own 5` = a register.  Trace replay of the run of `C04.modelRun`. -/
+neighbour table, `own 5` = a register.  Addresses along the run of `C04.modelRun`; `wrS` stores the same
+constants the C++ stores (`white`/`grey`/`black`, `true`); `res` receives copies of values read. -/
 
 /-- the marker scan step of `C04.modelInit` -/
 def wsInitStep (surf markers : Img Int) (st : C04.MSt) (i : Nat) : C04.MSt :=
